@@ -48,6 +48,8 @@ type world struct {
 	rounds int32
 	mu     sync.Mutex
 	cutCh  chan string
+
+	lastRejected int // liar index of the sender most recently named in RejectSenders (-1 none)
 }
 
 func (w *world) peerIndex(id string) int {
@@ -178,11 +180,19 @@ type liar struct {
 	round   int
 	stopped bool
 	ever    map[int]bool // catalog indexes ever advertised
+	gen     int          // connection generation
+	cur     p2p.Peer     // the node's peer object of the current generation
+	skipReq int          // SnapshotsRequests to ignore (sent by the node's AddPeer after a reconnect; the scheduler advertises itself)
 }
 
 func (l *liar) GetChannels() []*conn.ChannelDescriptor { return channels() }
-func (l *liar) AddPeer(p2p.Peer)                       {}
-func (l *liar) RemovePeer(p2p.Peer, interface{})       {}
+func (l *liar) AddPeer(p p2p.Peer) {
+	l.mu.Lock()
+	l.gen++
+	l.cur = p
+	l.mu.Unlock()
+}
+func (l *liar) RemovePeer(p2p.Peer, interface{}) {}
 
 func (l *liar) nodePeer() p2p.Peer {
 	l.mu.Lock()
@@ -212,6 +222,11 @@ func (l *liar) ReceiveEnvelope(e p2p.Envelope) {
 	switch msg := um.(type) {
 	case *ssproto.SnapshotsRequest:
 		l.mu.Lock()
+		if l.skipReq > 0 && e.Src == l.cur && l.gen > 1 {
+			l.skipReq--
+			l.mu.Unlock()
+			return
+		}
 		r := l.round
 		l.round++
 		l.mu.Unlock()
@@ -221,8 +236,12 @@ func (l *liar) ReceiveEnvelope(e p2p.Envelope) {
 		l.mu.Lock()
 		n := l.reqNo
 		l.reqNo++
+		g := l.gen
+		if e.Src != l.cur {
+			g-- // still the previous connection
+		}
 		l.mu.Unlock()
-		l.w.log.add(Ev{K: "req-chunk", P: l.idx, C: n, H: msg.Height, F: msg.Format, I: msg.Index})
+		l.w.log.add(Ev{K: "req-chunk", P: l.idx, C: n, G: g, H: msg.Height, F: msg.Format, I: msg.Index})
 		l.w.onChunkRequest(l, n, msg)
 	}
 }
@@ -320,7 +339,7 @@ func (w *world) rightBytes(h uint64, f uint32, i uint32) []byte {
 
 // runChild executes one scenario and writes header + event log to $VERIF_C14_OUT.
 func runChild(scn *Scenario, outPath string) {
-	w := &world{scn: scn, truth: map[uint64]*truthRec{}, cutCh: make(chan string, 4)}
+	w := &world{scn: scn, truth: map[uint64]*truthRec{}, cutCh: make(chan string, 4), lastRejected: -1}
 	w.chain = buildChain(scn)
 	tip := uint64(w.chain.Height())
 	hdr := Header{Scenario: scn, Truth: map[uint64]Truth{}, Tip: tip}
